@@ -428,6 +428,10 @@ func parseOp(op string) (p parsed, err error) {
 			to, from = "$x | to_jq({indent: $n})", "from_jq"
 		}
 		return parsed{`. as [$n,$x] | ` + rtExpr(to, from), []any{n, parseWire(ws[3])}, jsonRtObs}, nil
+	case name == "csv" && dir == "rt" && len(ws) == 3:
+		return parsed{rtExpr("to_csv", "from_csv | tovalue"), parseWire(ws[2]), jsonRtObs}, nil
+	case name == "csv" && dir == "dec" && len(ws) == 3:
+		return parsed{decExpr("from_csv | tovalue"), string(hlib.UnHex(ws[2])), jsonDecObs}, nil
 	case name == "xmlarr" && dir == "rt" && len(ws) == 3:
 		return parsed{decExpr("to_xml | from_xml({array: true}) | tovalue"), parseWire(ws[2]), jsonDecObs}, nil
 	case name == "xmlseq" && dir == "rt" && len(ws) == 3:
